@@ -161,17 +161,17 @@ theorem C18_reachable (s : Sys) (l : List Step) (hb : s.bsei.WF) (hs : s.stsei.W
       intro x m x' ms hp hx
       obtain ⟨p1, p2, p3, p4, p5⟩ := hp
       cases handle_touch x x' m ms hx with
-      | none h => rw [h.bsei, h.stsei]; exact ⟨p1, p2, p3, p4, p5⟩
-      | hub e sender funds hm hx' b t r d g => rw [b, t]; exact ⟨p1, p2, p3, p4, p5⟩
-      | bsei blk rw sender tm hx' h t r d g =>
+      | none h _ _ => rw [h.bsei, h.stsei]; exact ⟨p1, p2, p3, p4, p5⟩
+      | hub e sender funds hm _ _ hx' b t r d g => rw [b, t]; exact ⟨p1, p2, p3, p4, p5⟩
+      | bsei s1 sender funds tm _ _ hx' h t r d g =>
         have st := C18_bsei_step _ _ _ _ _ _ _ _ _ p1 hx'
         rw [t]; exact ⟨st.2.1, p2, by rw [st.2.2.2]; exact p3, p4, by rw [st.2.2.1]; exact p5⟩
-      | stsei blk sender tm hx' h b r d g =>
+      | stsei blk sender funds tm _ hx' h b r d g =>
         have st := C18_stsei_step _ _ _ _ _ _ _ _ p2 hx'
         rw [b]; exact ⟨p1, st.2.1, p3, by rw [st.2.2.1]; exact p4, p5⟩
-      | reward tok dsp bal sender rm hx' h b t d g => rw [b, t]; exact ⟨p1, p2, p3, p4, p5⟩
-      | disp env sender dm hx' h b t r g => rw [b, t]; exact ⟨p1, p2, p3, p4, p5⟩
-      | reg s1 sender rm h1 hx' h b t r d => rw [b, t]; exact ⟨p1, p2, p3, p4, p5⟩)
+      | reward s1 sender funds rm _ _ hx' h b t d g => rw [b, t]; exact ⟨p1, p2, p3, p4, p5⟩
+      | disp env sender funds dm _ hx' h b t r g => rw [b, t]; exact ⟨p1, p2, p3, p4, p5⟩
+      | reg s1 sender funds rm _ h1 hx' h b t r d => rw [b, t]; exact ⟨p1, p2, p3, p4, p5⟩)
     (by
       intro x e hp
       cases e with
@@ -181,5 +181,9 @@ theorem C18_reachable (s : Sys) (l : List Step) (hb : s.bsei.WF) (hs : s.stsei.W
       | _ => exact hp)
     l s ⟨hb, hs, rfl, rfl, rfl⟩
   exact key
+
+/-! Non-vacuity of `C18_reachable`: the genesis state. -/
+example : genesisSys.bsei.WF ∧ genesisSys.stsei.WF :=
+  ⟨(C18_init_wf true hubA [] _ rfl).1, (C18_init_wf false hubA [] _ rfl).1⟩
 
 end Krp
